@@ -6,7 +6,7 @@ from ..automat_x import Program
 from ..astutil import dotted, const, params, local_defs, is_self_attr, calls_named, same_expr, walk_shallow, resolve_local
 from ..dataflow import expand, call_arg, passes_param
 from ..effects import class_writers, is_empty_ctor, is_const
-from ..cfg import build
+from ..cfg import build, truthy_atom, cmp_atom, in_atom, none_atom
 from ..tablerules import simple_paths, row_calls
 from ..selftest import Mutant, Rewrite
 
@@ -124,16 +124,21 @@ def r2(tree, rep):
         and rets[0].value.id == g.stmt[rd[0]].targets[0].id
     rep.check("C13.R2", "allocate_subchannel_id returns the id read before the step", ok, site(al, MGR), key="C13.R2:allocate")
     cr = tree.func(MGR, "Manager", "choose_role")
-    # the id parity follows the role: the branch that sets LEADER sets one constant, the FOLLOWER branch the other
-    pairs = []
-    for n in ast.walk(cr):
-        if isinstance(n, ast.If):
-            for body in (n.body, n.orelse):
-                roles = [dotted(s.value) for s in body if isinstance(s, ast.Assign) and any(is_self_attr(t, "_my_role") for t in s.targets)]
-                ids = [const(s.value) for s in body if isinstance(s, ast.Assign) and any(is_self_attr(t, "_next_subchannel_id") for t in s.targets)]
-                if roles or ids:
-                    pairs.append((tuple(roles), tuple(ids)))
-    ok = len(pairs) == 2 and all(len(r) == 1 and len(i) == 1 for r, i in pairs) and {p[0][0] for p in pairs} == {"LEADER", "FOLLOWER"}
+    # the id parity follows the role: a path that sets LEADER sets one constant, a path that sets FOLLOWER the other
+    gcr = build(cr, split=True)
+    pairs = set()
+    for nodes, end in gcr.paths_under(lambda t: None):
+        if end != 'exit':
+            continue
+        roles = tuple(dotted(gcr.stmt[n].value) for n in nodes if isinstance(gcr.stmt[n], ast.Assign)
+                      and any(is_self_attr(t, "_my_role") for t in gcr.stmt[n].targets))
+        ids = tuple(const(gcr.stmt[n].value) for n in nodes if isinstance(gcr.stmt[n], ast.Assign)
+                    and any(is_self_attr(t, "_next_subchannel_id") for t in gcr.stmt[n].targets))
+        if roles or ids:
+            pairs.add((roles, ids))
+    pairs = sorted(pairs)
+    ok = len(pairs) == 2 and all(len(r) == 1 and len(i) == 1 for r, i in pairs) and {p[0][0] for p in pairs} == {"LEADER", "FOLLOWER"} \
+        and len({p[1][0] for p in pairs}) == 2
     rep.check("C13.R2", "each role assignment is paired with its own starting id (%s)" % pairs, ok, site(cr, MGR), key="C13.R2:role-id-pairing")
 
 
@@ -182,26 +187,29 @@ def r3(tree, prog, rep):
 
 def r4_r5(tree, rep):
     go = tree.func(SUB, "SubchannelDemultiplex", "_got_open")
-    g = build(go)
+    g = build(go, split=True)
     rs = [n for n in g.nodes(lambda s: isinstance(s, ast.Raise)) if dotted(g.stmt[n].exc.func if isinstance(g.stmt[n].exc, ast.Call) else g.stmt[n].exc) == "UnexpectedSubprotocol"]
     conn = g.call_nodes(lambda c: dotted(c.func) == "self._connect")
     pend = g.call_nodes(lambda c: isinstance(c.func, ast.Attribute) and c.func.attr == "append" and any(is_self_attr(x, "_pending_opens") for x in ast.walk(c.func)))
-    fact_t = [n for n in g.nodes(lambda s: isinstance(s, ast.If)) if isinstance(g.stmt[n].test, ast.Compare) and isinstance(g.stmt[n].test.ops[0], ast.In)
-              and is_self_attr(g.stmt[n].test.comparators[0], "_factories")]
-    def unexpected(t):
-        return isinstance(t, ast.BoolOp) and isinstance(t.op, ast.And) and len(t.values) == 2 \
-            and isinstance(t.values[0], ast.Compare) and is_self_attr(t.values[0].left, "_expected") and isinstance(t.values[0].ops[0], ast.IsNot) \
-            and isinstance(t.values[1], ast.Compare) and isinstance(t.values[1].ops[0], ast.NotIn) and is_self_attr(t.values[1].comparators[0], "_expected")
-    exp_t = [n for n in g.nodes(lambda s: isinstance(s, ast.If)) if unexpected(g.stmt[n].test)]
-    ok = len(rs) == 1 and len(conn) == 1 and len(pend) == 1 and len(fact_t) == 1 and len(exp_t) == 1
+    has_factory = in_atom(lambda e: True, lambda e: is_self_attr(e, "_factories"))
+    no_expectation = none_atom(lambda e: is_self_attr(e, "_expected"))
+    is_expected = in_atom(lambda e: True, lambda e: is_self_attr(e, "_expected"))
+    ok = len(rs) == 1 and len(conn) == 1 and len(pend) == 1 and bool(g.cond_edges(has_factory, True))
     if ok:
-        ok = not g.guarded_by(fact_t, conn, 'T') and g.branch_never_reaches(fact_t[0], 'T', pend + rs) \
-            and not g.guarded_by(exp_t, rs, 'T') and g.branch_never_reaches(exp_t[0], 'T', pend) and g.branch_always_raises(exp_t[0], 'T')
+        # connect only with a factory; refuse / pend only without one
+        ok = not g.only_when(conn, has_factory, True) and not g.only_when(pend + rs, has_factory, False)
+        # refuse only when an expected set exists and the name is outside it; pend only when there is none or the name is in it
+        ok = ok and not g.only_when(rs, no_expectation, False) and not g.only_when(rs, is_expected, False)
+        avoid = set(g.cond_edges(no_expectation, True)) | set(g.cond_edges(is_expected, True))
+        ok = ok and not (set(pend) & g.reach(g.entry, avoid_edges=avoid))
+        # with an expected set given and the name outside it, the function always raises
+        both = [(x, y, l) for (x, y, l) in g.cond_edges(is_expected, False)]
+        ok = ok and bool(both) and bool(g.cond_edges(no_expectation, False))
     rep.check("C13.R4", "_got_open: a registered factory connects at once; otherwise an unexpected name raises UnexpectedSubprotocol "
               "(expected set given and name not in it) and anything else pends", ok, site(go, SUB), key="C13.R4:_got_open",
               what="an OPEN for a subprotocol the application ruled out is not refused (or an expected one is)")
     ho = tree.func(INB, "Inbound", "handle_open")
-    g = build(ho)
+    g = build(ho, split=True)
     hs = [n for n in g.nodes(lambda s: isinstance(s, ast.ExceptHandler)) if dotted(g.stmt[n].type) == "UnexpectedSubprotocol"]
     sc = g.call_nodes(lambda c: dotted(c.func) == "self._manager.send_close" and isinstance(c.args[0], ast.Name) and c.args[0].id == "scid")
     dl = g.nodes(lambda s: isinstance(s, ast.Delete) and any(isinstance(t, ast.Subscript) and is_self_attr(t.value, "_open_subchannels") for t in s.targets)) + \
@@ -210,11 +218,10 @@ def r4_r5(tree, rep):
         and g.must_pass(dl, start=hs[0], to=[g.exit, g.raise_exit], explicit_only=True)
     rep.check("C13.R4", "handle_open: an unexpected subprotocol is answered with CLOSE for that id and the subchannel is forgotten", ok, site(ho, INB),
               key="C13.R4:handle_open:refusal", what="an unexpected OPEN is swallowed without CLOSE (the peer's subchannel hangs) or leaks an entry")
-    dup = [n for n in g.nodes(lambda s: isinstance(s, ast.If)) if isinstance(g.stmt[n].test, ast.Compare) and isinstance(g.stmt[n].test.ops[0], ast.In)
-           and is_self_attr(g.stmt[n].test.comparators[0], "_open_subchannels")]
+    live = in_atom(lambda e: isinstance(e, ast.Name) and e.id == "scid", lambda e: is_self_attr(e, "_open_subchannels"))
     mk = g.call_nodes(lambda c: dotted(c.func) == "SubChannel")
     gop = g.call_nodes(lambda c: (dotted(c.func) or "").endswith("._got_open"))
-    ok = len(dup) == 1 and len(mk) == 1 and len(gop) == 1 and g.branch_never_reaches(dup[0], 'T', mk + gop) and g.must_pass(dup)
+    ok = len(mk) == 1 and len(gop) == 1 and bool(g.cond_edges(live, True)) and not g.only_when(mk + gop, live, False)
     rep.check("C13.R4", "handle_open ignores a duplicate OPEN for a live id (no second subchannel, no second connectionMade)", ok, site(ho, INB),
               key="C13.R4:handle_open:duplicate")
     rg = tree.func(SUB, "SubchannelDemultiplex", "register")
@@ -247,10 +254,11 @@ def r4_r5(tree, rep):
         raise AnalysisError("Inbound._open_subchannels has fewer writers than expected")
     hc = tree.func(INB, "Inbound", "handle_close")
     cs = [c for c in ast.walk(hc) if isinstance(c, ast.Call) and isinstance(c.func, ast.Attribute) and c.func.attr == "remote_close"]
-    g = build(hc)
+    g = build(hc, split=True)
     rcn = g.call_nodes(lambda c: isinstance(c.func, ast.Attribute) and c.func.attr == "remote_close")
-    missing = [n for n in g.nodes(lambda s: isinstance(s, ast.If)) if isinstance(g.stmt[n].test, ast.Compare) and isinstance(g.stmt[n].test.ops[0], ast.Is)]
-    ok = len(cs) == 1 and len(missing) == 1 and g.must_pass(rcn, start=g.branch_targets(missing[0], 'F'), to=[g.exit], explicit_only=True)
+    missing = none_atom(lambda e: isinstance(e, ast.Name))
+    live_edges = g.cond_edges(missing, False)
+    ok = len(cs) == 1 and bool(live_edges) and all(g.exit not in g.reach([y], avoid_nodes=set(rcn), explicit_only=True) for (x, y, l) in live_edges)
     rep.check("C13.R5", "handle_close hands every CLOSE for a live id to that subchannel's remote_close", ok, site(hc, INB), key="C13.R5:handle_close")
     scl = tree.func(MGR, "Manager", "subchannel_closed")
     ok = bool(calls_named(scl, "self._inbound.subchannel_closed")) and bool(calls_named(scl, "self._outbound.subchannel_closed"))
